@@ -37,28 +37,29 @@ import (
 // target() builtin's composition of a target from its arguments (replicated in vLoadProject).
 
 var vStubTable = map[string]string{
-	"os.Open":                                          "vOpen",
-	"os.Stat":                                          "vStat",
-	"os.IsNotExist":                                    "vIsNotExist",
-	"os.MkdirAll":                                      "vMkdirAll",
-	"os.CreateTemp":                                    "vCreateTemp",
-	"os.Create":                                        "vCreate",
-	"(*regexp.Regexp).MatchString":                     "vIgnoreMatch",
-	"os.Rename":                                        "vRename",
-	"os.RemoveAll":                                     "vRemoveAll",
-	"(*os.File).Stat":                                  "vFileStat",
-	"(*os.File).ReadDir":                               "vFileReadDir",
-	"(*os.File).Name":                                  "vFileName",
-	"(*os.File).Close":                                 "vFileClose",
-	"path/filepath.WalkDir":                            "vWalkDir",
-	"crypto/sha256.New":                                "vSHANew",
-	"encoding/hex.EncodeToString":                      "vHexEncode",
-	"github.com/pgavlin/dawn/util.SHA256":              "vSHA256",
-	"encoding/json.NewEncoder":                         "vJSONNewEncoder",
-	"(*encoding/json.Encoder).Encode":                  "vJSONEncode",
-	"encoding/json.NewDecoder":                         "vJSONNewDecoder",
-	"(*encoding/json.Decoder).Decode":                  "vJSONDecode",
-	"github.com/pgavlin/dawn.functionEnv":              "vFunctionEnv",
+	"os.Open":                             "vOpen",
+	"os.Stat":                             "vStat",
+	"os.Lstat":                            "vStat", // the modelled file system has no symbolic links
+	"os.IsNotExist":                       "vIsNotExist",
+	"os.MkdirAll":                         "vMkdirAll",
+	"os.CreateTemp":                       "vCreateTemp",
+	"os.Create":                           "vCreate",
+	"(*regexp.Regexp).MatchString":        "vIgnoreMatch",
+	"os.Rename":                           "vRename",
+	"os.RemoveAll":                        "vRemoveAll",
+	"(*os.File).Stat":                     "vFileStat",
+	"(*os.File).ReadDir":                  "vFileReadDir",
+	"(*os.File).Name":                     "vFileName",
+	"(*os.File).Close":                    "vFileClose",
+	"path/filepath.WalkDir":               "vWalkDir",
+	"crypto/sha256.New":                   "vSHANew",
+	"encoding/hex.EncodeToString":         "vHexEncode",
+	"github.com/pgavlin/dawn/util.SHA256": "vSHA256",
+	"encoding/json.NewEncoder":            "vJSONNewEncoder",
+	"(*encoding/json.Encoder).Encode":     "vJSONEncode",
+	"encoding/json.NewDecoder":            "vJSONNewDecoder",
+	"(*encoding/json.Decoder).Decode":     "vJSONDecode",
+	"github.com/pgavlin/dawn.functionEnv": "vFunctionEnv",
 	"(*github.com/pgavlin/dawn.function).newThread":    "vNewThread",
 	"go.starlark.net/starlark.Call":                    "vCall",
 	"(*github.com/pgavlin/dawn/pickle.Encoder).Encode": "vPickleEncode",
